@@ -152,6 +152,41 @@ def _retire_old_classes(P, cls):
         gc.collect()
 
 
+def word_repetition(rng):
+    """A repetition over words of DIFFERENT lengths sharing letters (`*( "aaa" / "a" / "ab" )`): the longest match is often only
+    reached through a path of short steps that falls behind a long step before overtaking it - the case a repetition's
+    frontier / termination logic must get right.  Returns (grammar, sources)."""
+    letters = rng.choice(["ab", "abc", "aA", "ab"])
+    # (a list, not a set: the generator must not depend on the interpreter's string hashing)
+    words = [rng.choice(letters)]
+    want = rng.randint(3, 5)
+    for _ in range(40):
+        if len(words) >= want:
+            break
+        w = "".join(rng.choice(letters) for _ in range(rng.choice([1, 2, 2, 3, 3])))
+        if w not in words:
+            words.append(w)
+    rng.shuffle(words)
+    alt = ("alt", [("lit", w, rng.random() < 0.5) for w in words], False)
+    mn = rng.choice([0, 0, 1, 2])
+    mx = rng.choice([None, None, None, mn + 2, mn + 3])
+    shape = rng.randrange(4)
+    if shape == 0:
+        gr = [("r0", ("rep", mn, mx, alt), None)]
+    elif shape == 1:
+        gr = [("r0", ("cat", [("rep", mn, mx, alt), ("lit", rng.choice(words), False)]), None)]
+    elif shape == 2:
+        gr = [("r0", ("rep", mn, mx, ("ref", 1)), None), ("r1", alt, None)]
+    else:
+        gr = [("r0", ("cat", [("lit", rng.choice(letters), False), ("rep", mn, mx, ("ref", 1)), ("opt", ("lit", rng.choice(letters), False))]), None), ("r1", alt, None)]
+    srcs = []
+    for _ in range(10):
+        srcs.append("".join(rng.choice(words) for _ in range(rng.randint(1, 4)))[:9])
+    for _ in range(8):
+        srcs.append("".join(rng.choice(letters) for _ in range(rng.randint(2, 7))))
+    return gr, srcs
+
+
 def twin(grammar):
     """A grammar of the SAME shape and rule names whose leaves differ (every literal character and range bound moved to
     its neighbour): every repetition / rule of the twin PRINTS like its counterpart wherever it contains no literal, but
